@@ -192,6 +192,12 @@ fn main() {
             c18::records_main(seed, &args[2], args[3].parse().unwrap(), args[4].parse().unwrap());
             std::process::exit(0);
         }
+        "case" => {
+            // one case (JSON on the command line) executed as the first thing this process does; prints the outcome
+            let c: Value = serde_json::from_str(args.get(2).expect("case <json>")).expect("case json");
+            println!("OUTCOME {}", outcome_here(&c));
+            std::process::exit(0);
+        }
         "replay" => {
             let path = args.get(2).expect("replay <file>");
             std::process::exit(replay(path));
@@ -274,6 +280,22 @@ fn refdump(seed: u64) -> Value {
     json!({"q": hx(p), "r": hx(r()), "fq": fqs, "f2": f2s, "f12": f12s, "g1": jp1(&c.g1), "g2": jp2(&c.g2), "mults": mults, "pairings": prs})
 }
 
+/// outcome of one case executed in a FRESH process (process-wide state in its initial condition)
+pub(crate) fn outcome_fresh(case: &Value) -> Result<(), Bad> {
+    let exe = std::env::current_exe().map_err(|e| Bad { class: "machinery".into(), msg: format!("current_exe: {}", e) })?;
+    let out = std::process::Command::new(exe).arg("case").arg(case.to_string()).output().map_err(|e| Bad { class: "machinery".into(), msg: format!("spawn: {}", e) })?;
+    let txt = String::from_utf8_lossy(&out.stdout).to_string();
+    let line = txt.lines().find_map(|l| l.strip_prefix("OUTCOME ")).map(|s| s.to_string());
+    match line.as_deref() {
+        Some("holds") => Ok(()),
+        Some(o) if o.contains('|') => {
+            let (c, m) = o.split_once('|').unwrap();
+            Err(Bad { class: c.to_string(), msg: format!("as the first such call of a fresh process: {}", m) })
+        }
+        Some(o) => Err(Bad { class: "machinery".into(), msg: format!("fresh process reported '{}'", o) }),
+        None => Err(Bad { class: "abnormal-exit".into(), msg: format!("fresh process ended without an outcome (status {:?}) for case {}", out.status.code(), case) }),
+    }
+}
 /// outcome of one case re-executed in this process, under the case timeout: "holds", "<class>|<msg>"
 pub(crate) fn outcome_here(case: &Value) -> String {
     let op = case["op"].as_str().unwrap_or("").to_string();
